@@ -37,8 +37,9 @@ type pathAbort struct {
 // Dec is one recorded decision of a path.
 type Dec struct {
 	B   bool   // branch taken (for value decisions: whether "= K" was taken)
-	K   string // for value decisions: the concrete value chosen
+	K   string // for value decisions: the pivot value
 	IsK bool
+	Rel string // for value decisions: "<", "=", ">" relative to K
 }
 
 // Known describes one recorded (not repaired) finding.
@@ -67,6 +68,7 @@ type Sample struct {
 	Decision int               `json:"decisions"`
 	Model    map[string]string `json:"model,omitempty"`
 	Observed map[string]string `json:"observed,omitempty"`
+	Failing  []string          `json:"assertions_failing_under_these_inputs,omitempty"`
 }
 
 // Session is the state shared by all workers exploring one harness.
@@ -88,6 +90,7 @@ type Session struct {
 	Trace      bool
 	WantSample int // number of completed paths to sample with model+observations
 	InlineGo   bool // `go f()` runs f inline (stated per harness)
+	ExtraInits []*ssa.Function // package initialisers to run before the harness package's
 	IntrinsicPkgs map[string]bool
 
 	mu            sync.Mutex
@@ -159,6 +162,7 @@ type Explorer struct {
 	regions  []struct{ id, e string }
 	gridObl  []string
 	obs      []struct{ label, term string }
+	asserted []struct{ label, term string } // active assertions met on this path (term "false" = concretely false)
 	obsConc  map[string]string
 
 	panicWhere string
@@ -240,6 +244,7 @@ func (ex *Explorer) name(v symv) symv {
 	}
 	ex.z.send("(assert (= " + n + " " + v.e + "))")
 	v.e = n
+	v.bv = ""
 	return v
 }
 
@@ -259,6 +264,10 @@ func (ex *Explorer) declare(name string, v symv) symv {
 	switch {
 	case v.k == kBool:
 		z.send("(declare-const " + q + " Bool)")
+	case v.k == kInt && v.bv != "":
+		z.send("(declare-const |" + name + "!bv| (_ BitVec 64))")
+		z.send("(define-fun " + q + " () Int " + bvToInt("|"+name+"!bv|") + ")")
+		v.bv = "|" + name + "!bv|"
 	case v.k == kInt:
 		z.send("(declare-const " + q + " Int)")
 	case v.k == kF64 && v.g != nil:
@@ -323,15 +332,24 @@ func (ex *Explorer) assume(c symv, d bool) {
 	}
 }
 
-const maxConcretize = 80
+const maxConcretize = 400
 
-// concretize case-splits a symbolic integer over its feasible values.
+// concretize case-splits a symbolic integer over its feasible values.  The
+// split is a pivot tree (v < k | v = k | v > k around a model value k) so that
+// the sub-ranges are explored by different workers.
 func (ex *Explorer) concretize(v symv) value {
 	if v.k == kBool {
 		return ex.decide(v)
 	}
 	if v.k != kInt {
 		unsupported("concretize: non-integer")
+	}
+	rel := func(op string, k *big.Int) string {
+		if v.bv != "" {
+			bop := map[string]string{"<": "bvslt", ">": "bvsgt", "=": "="}[op]
+			return "(" + bop + " " + v.bv + " " + bvLit(k) + ")"
+		}
+		return "(" + op + " " + v.e + " " + blit(k) + ")"
 	}
 	for cnt := 0; ; cnt++ {
 		n := len(ex.taken)
@@ -341,17 +359,15 @@ func (ex *Explorer) concretize(v symv) value {
 				panic(pathAbort{"harness", "decision vector mismatch (value vs bool) — nondeterministic re-execution"})
 			}
 			ex.taken = append(ex.taken, d)
-			eq := "(= " + v.e + " " + d.K + ")"
-			if d.B {
-				ex.assertTerm(eq)
-				k, _ := new(big.Int).SetString(strings.Trim(strings.ReplaceAll(strings.ReplaceAll(d.K, "(- ", "-"), ")", ""), " "), 10)
+			k := parseIntValue(d.K)
+			ex.assertTerm(rel(d.Rel, k))
+			if d.Rel == "=" {
 				return goInt(v.bk, k)
 			}
-			ex.assertTerm("(not " + eq + ")")
 			continue
 		}
 		if cnt > maxConcretize {
-			unsupported("concretize: more than %d feasible values for %s", maxConcretize, v.e)
+			unsupported("concretize: more than %d splits for %s", maxConcretize, v.e)
 		}
 		r := ex.check("")
 		if r != "sat" {
@@ -361,24 +377,32 @@ func (ex *Explorer) concretize(v symv) value {
 			}
 			unsupported("concretize: solver answered %s", r)
 		}
-		ans := ex.z.getValues([]string{v.e})
+		qterm := v.e
+		if v.bv != "" {
+			qterm = v.bv
+		}
+		ans := ex.z.getValues([]string{qterm})
 		ex.pop()
 		sx := parseSexp(ans)
 		val := sx.list[0].list[1].String()
-		k := parseIntValue(val)
+		var k *big.Int
+		if v.bv != "" {
+			k = parseBVValue(val)
+		} else {
+			k = parseIntValue(val)
+		}
 		if k == nil {
 			unsupported("concretize: cannot parse model value %q", val)
 		}
 		lit := blit(k)
-		eq := "(= " + v.e + " " + lit + ")"
-		// is another value possible?
-		other := ex.checkPop("(not " + eq + ")")
-		if other != "unsat" {
-			alt := append(append([]Dec{}, ex.taken...), Dec{B: false, K: lit, IsK: true})
-			ex.pending = append(ex.pending, alt)
+		for _, op := range []string{"<", ">"} {
+			if ex.checkPop(rel(op, k)) != "unsat" {
+				alt := append(append([]Dec{}, ex.taken...), Dec{K: lit, IsK: true, Rel: op})
+				ex.pending = append(ex.pending, alt)
+			}
 		}
-		ex.taken = append(ex.taken, Dec{B: true, K: lit, IsK: true})
-		ex.assertTerm(eq)
+		ex.taken = append(ex.taken, Dec{B: true, K: lit, IsK: true, Rel: "="})
+		ex.assertTerm(rel("=", k))
 		return goInt(v.bk, k)
 	}
 }
@@ -394,6 +418,28 @@ func (ex *Explorer) concretizeIn(v symv, lo, hi int64) value {
 		return goInt(v.bk, big.NewInt(hi+1))
 	}
 	return ex.concretize(v)
+}
+
+// parseBVValue reads #x.. / #b.. as a signed 64-bit value.
+func parseBVValue(s string) *big.Int {
+	s = strings.TrimSpace(s)
+	k := new(big.Int)
+	switch {
+	case strings.HasPrefix(s, "#x"):
+		if _, ok := k.SetString(s[2:], 16); !ok {
+			return nil
+		}
+	case strings.HasPrefix(s, "#b"):
+		if _, ok := k.SetString(s[2:], 2); !ok {
+			return nil
+		}
+	default:
+		return nil
+	}
+	if k.Bit(63) == 1 {
+		k.Sub(k, new(big.Int).Lsh(big.NewInt(1), 64))
+	}
+	return k
 }
 
 func parseIntValue(s string) *big.Int {
@@ -570,6 +616,7 @@ func (ex *Explorer) RunPath(prefix []Dec) (outcome string) {
 	ex.regions = nil
 	ex.gridObl = nil
 	ex.obs = nil
+	ex.asserted = nil
 	ex.obsConc = map[string]string{}
 	ex.funcs = map[string]bool{}
 	ex.stubsUsed = map[string]bool{}
@@ -636,6 +683,30 @@ func (ex *Explorer) RunPath(prefix []Dec) (outcome string) {
 					for k, v := range ex.obsConc {
 						smp.Observed[k] = v
 					}
+					// which assertions does this particular input violate?
+					fail := map[string]bool{}
+					var aterms []string
+					var alabels []string
+					for _, a := range ex.asserted {
+						if a.term == "false" {
+							fail[a.label] = true
+						} else {
+							aterms = append(aterms, a.term)
+							alabels = append(alabels, a.label)
+						}
+					}
+					if len(aterms) > 0 {
+						ans := parseSexp(ex.z.getValues(aterms))
+						for k := range aterms {
+							if k < len(ans.list) && ans.list[k].list[1].String() == "false" {
+								fail[alabels[k]] = true
+							}
+						}
+					}
+					for l := range fail {
+						smp.Failing = append(smp.Failing, l)
+					}
+					sort.Strings(smp.Failing)
 				}
 				ex.pop()
 			}
@@ -736,6 +807,9 @@ func (ex *Explorer) RunPath(prefix []Dec) (outcome string) {
 		}()
 	}()
 
+	for _, f := range s.ExtraInits {
+		call(i, nil, token.NoPos, f, nil)
+	}
 	call(i, nil, token.NoPos, s.Fn.Pkg.Func("init"), nil)
 	if s.Arg != nil {
 		call(i, nil, token.NoPos, s.Fn, []value{*s.Arg})
@@ -930,4 +1004,50 @@ func (it *sortedMapIter) next() tuple {
 		}
 	}
 	return []value{false, nil, nil}
+}
+
+// ---- model channels (run-to-completion goroutine model) ----
+
+// mchan is an unbounded FIFO: a goroutine body runs to completion at its `go`
+// statement, so a producer fills the queue before its consumer runs.
+type mchan struct {
+	buf      []value
+	closed   bool
+	capacity int
+}
+
+func (c *mchan) send(v value) {
+	if c == nil {
+		unsupported("send on nil channel blocks forever")
+	}
+	if c.closed {
+		panic(rtErr{"send on closed channel"})
+	}
+	c.buf = append(c.buf, v)
+}
+
+func (c *mchan) recv() (value, bool) {
+	if c == nil {
+		unsupported("receive from nil channel blocks forever")
+	}
+	if len(c.buf) > 0 {
+		v := c.buf[0]
+		c.buf = c.buf[1:]
+		return v, true
+	}
+	if c.closed {
+		return nil, false
+	}
+	unsupported("receive would block forever under the run-to-completion goroutine model (no producer left)")
+	return nil, false
+}
+
+func (c *mchan) close() {
+	if c == nil {
+		panic(rtErr{"close of nil channel"})
+	}
+	if c.closed {
+		panic(rtErr{"close of closed channel"})
+	}
+	c.closed = true
 }
